@@ -161,34 +161,310 @@ Proof.
         eapply IH; eassumption.
 Qed.
 
+Definition run_all (tis : list tinsts) (st : pstate) : res pstate :=
+  foldM (fun st ti => apply_insts st (ti_sg ti) (ti_insts ti) (length (ti_insts ti))) tis st.
+
+Definition ids_ok (tis : list tinsts) : Prop :=
+  Forall (fun ti => 0 <= ti_sg ti /\ Forall (fun i => 0 <= i_tensor i) (ti_insts ti)) tis.
+Definition never_names (k : nat) (t : Z) (tis : list tinsts) : Prop :=
+  forall ti i, In ti tis -> ti_sg ti = Z.of_nat k -> In i (ti_insts ti) -> i_tensor i <> t.
+
+Lemma run_all_untouched k t : forall tis st0 st1 g0,
+  ids_ok tis -> never_names k t tis ->
+  nth_opt (m_subgraphs (ps_model st0)) k = Some g0 -> 0 <= t < ntens g0 ->
+  run_all tis st0 = Ok st1 ->
+  exists g', nth_opt (m_subgraphs (ps_model st1)) k = Some g' /\ tensor_at g' t = tensor_at g0 t /\
+             ntens g0 <= ntens g'.
+Proof.
+  unfold run_all. induction tis as [|ti tis IH]; intros st0 st1 g0 Hok Hno Hg Ht H; cbn [foldM] in H.
+  - inversion H; subst. exists g0. split; [exact Hg|]. split; [reflexivity|lia].
+  - inversion Hok as [|? ? [Hsg Hnn] Hok']; subst.
+    destruct (apply_insts st0 (ti_sg ti) (ti_insts ti) (length (ti_insts ti))) as [st2|] eqn:E; cbn [bind] in H; [|discriminate].
+    assert (Hno1 : Z.to_nat (ti_sg ti) <> k \/ Forall (fun i => i_tensor i <> t) (ti_insts ti)).
+    { destruct (Z.eq_dec (ti_sg ti) (Z.of_nat k)) as [Ek|Nk].
+      - right. apply Forall_forall. intros i Hi. exact (Hno ti i (or_introl eq_refl) Ek Hi).
+      - left. lia. }
+    destruct (apply_insts_untouched _ _ _ Hsg _ _ _ _ _ Hnn Hg Ht Hno1 E) as (g1 & Hg1 & Et & Hn).
+    destruct (IH st2 st1 g1 Hok' (fun ti' i' Hin => Hno ti' i' (or_intror Hin)) Hg1 ltac:(lia) H) as (g2 & Hg2 & Et2 & Hn2).
+    exists g2. split; [exact Hg2|]. split; [congruence|lia].
+Qed.
+
 (* whole runs: an original tensor that no instruction of its subgraph names is
    returned exactly as it was *)
 Theorem transform_graph_untouched m tis m' k g t :
   nth_opt (m_subgraphs m) k = Some g -> 0 <= t < ntens g ->
-  Forall (fun ti => 0 <= ti_sg ti /\ Forall (fun i => 0 <= i_tensor i) (ti_insts ti)) tis ->
-  (forall ti i, In ti tis -> ti_sg ti = Z.of_nat k -> In i (ti_insts ti) -> i_tensor i <> t) ->
+  ids_ok tis -> never_names k t tis ->
   transform_graph m tis = Ok m' ->
   exists g', nth_opt (m_subgraphs m') k = Some g' /\ tensor_at g' t = tensor_at g t.
 Proof.
   intros Hg Ht Hok Hno H. unfold transform_graph in H.
   match type of H with bind ?x _ = _ => destruct x as [st|] eqn:E end; cbn [bind] in H; [|discriminate].
   inversion H; subst m'; clear H.
-  assert (G : forall tis st0 st1 g0,
-            Forall (fun ti => 0 <= ti_sg ti /\ Forall (fun i => 0 <= i_tensor i) (ti_insts ti)) tis ->
-            (forall ti i, In ti tis -> ti_sg ti = Z.of_nat k -> In i (ti_insts ti) -> i_tensor i <> t) ->
-            nth_opt (m_subgraphs (ps_model st0)) k = Some g0 -> 0 <= t < ntens g0 ->
-            foldM (fun st ti => apply_insts st (ti_sg ti) (ti_insts ti) (length (ti_insts ti))) tis st0 = Ok st1 ->
-            exists g', nth_opt (m_subgraphs (ps_model st1)) k = Some g' /\ tensor_at g' t = tensor_at g0 t).
-  { clear. induction tis as [|ti tis IH]; intros st0 st1 g0 Hok Hno Hg Ht H; cbn [foldM] in H.
-    - inversion H; subst. eauto.
-    - inversion Hok as [|? ? [Hsg Hnn] Hok']; subst.
-      destruct (apply_insts st0 (ti_sg ti) (ti_insts ti) (length (ti_insts ti))) as [st2|] eqn:E; cbn [bind] in H; [|discriminate].
-      assert (Hno1 : Z.to_nat (ti_sg ti) <> k \/ Forall (fun i => i_tensor i <> t) (ti_insts ti)).
-      { destruct (Z.eq_dec (ti_sg ti) (Z.of_nat k)) as [Ek|Nk].
-        - right. apply Forall_forall. intros i Hi. exact (Hno ti i (or_introl eq_refl) Ek Hi).
-        - left. lia. }
-      destruct (apply_insts_untouched _ _ _ Hsg _ _ _ _ _ Hnn Hg Ht Hno1 E) as (g1 & Hg1 & Et & Hn).
-      destruct (IH st2 st1 g1 Hok' (fun ti' i' Hin => Hno ti' i' (or_intror Hin)) Hg1 ltac:(lia) H) as (g2 & Hg2 & Et2).
-      exists g2. split; [exact Hg2|congruence]. }
-  exact (G tis (init_pstate m) st g Hok Hno Hg Ht E).
+  destruct (run_all_untouched k t tis (init_pstate m) st g Hok Hno Hg Ht E) as (g' & A & B & _). eauto.
+Qed.
+
+(* ---------- the positive clause: a tensor quantized in place ---------- *)
+(* y' is y quantized with parameters p: same name, shape, buffer; the dtype of
+   p's bit width; uniform parameters are annotated, float16 casts are not *)
+Definition qres (p : qparam) (y y' : tensor) : Prop :=
+  t_root y' = t_root y /\ t_sfx y' = t_sfx y /\ t_shape y' = t_shape y /\ t_buf y' = t_buf y /\
+  (if qp_uniform p
+   then quant_params_to_tflite_type (qp_bits p) = Ok (t_ty y') /\ t_q y' = Some (qp_id p)
+   else nonlinear_quant_params_to_tflite_type (qp_bits p) = Ok (t_ty y') /\ t_q y' = t_q y).
+
+Lemma qres_stable p x y z : qres p x y -> qres p y z -> z = y.
+Proof.
+  intros (A1 & A2 & A3 & A4 & A5) (B1 & B2 & B3 & B4 & B5).
+  destruct y as [r1 s1 sh1 ty1 b1 q1], z as [r2 s2 sh2 ty2 b2 q2]. cbn in *.
+  destruct (qp_uniform p).
+  - destruct A5 as [A5 A6], B5 as [B5 B6]. rewrite A5 in B5. inversion B5. congruence.
+  - destruct A5 as [A5 A6], B5 as [B5 B6]. rewrite A5 in B5. inversion B5. congruence.
+Qed.
+
+Lemma quantize_tensor_at bufs g tid p bufs' g' y :
+  0 <= tid -> tensor_at g tid = Some y ->
+  quantize_tensor bufs g tid (Some p) = Ok (bufs', g') ->
+  exists y', tensor_at g' tid = Some y' /\ qres p y y'.
+Proof.
+  intros Ht Hy H. unfold quantize_tensor in H.
+  destruct (get_tensor g tid) as [t0|] eqn:Et; cbn [bind] in H; [|discriminate].
+  unfold get_tensor in Et. destruct (py_index_nonneg _ _ _ Ht Et) as [Hn Hlt].
+  assert (t0 = y).
+  { unfold tensor_at, nthZ in Hy. destruct (Z.ltb_spec tid 0); [lia|]. congruence. }
+  subst t0.
+  replace (if tid <? 0 then tid + lenZ (sg_tensors g) else tid) with tid in H
+    by (destruct (Z.ltb_spec tid 0); [lia|reflexivity]).
+  match type of H with bind ?m _ = _ => destruct m as [b2|] end; cbn [bind] in H; [|discriminate].
+  match type of H with bind ?m _ = _ => destruct m as [t2|] eqn:Et2 end; cbn [bind] in H; [|discriminate].
+  inversion H; subst bufs' g'; clear H. exists t2. split.
+  - unfold tensor_at, nthZ, set_tensor. cbn [sg_tensors]. destruct (Z.ltb_spec tid 0); [lia|].
+    rewrite nth_opt_set_nth_any, Nat.eqb_refl, Hn. reflexivity.
+  - unfold qres. destruct (qp_uniform p).
+    + destruct (quant_params_to_tflite_type (qp_bits p)) as [ty|]; cbn [bind] in Et2; [|discriminate].
+      inversion Et2; subst; cbn. auto 10.
+    + destruct (nonlinear_quant_params_to_tflite_type (qp_bits p)) as [ty|]; cbn [bind] in Et2; [|discriminate].
+      inversion Et2; subst; cbn. auto 10.
+Qed.
+
+(* effect of the three transformations on the tensor they name *)
+Lemma trans_of_named i codes bufs g producer cs codes' bufs' g' info y :
+  0 <= i_tensor i -> tensor_at g (i_tensor i) = Some y ->
+  trans_of i codes bufs g producer cs = Ok (codes', bufs', g', info) ->
+  (i_trans i = Tr_ADD_QUANTIZE /\ tensor_at g' (i_tensor i) = Some y) \/
+  ((i_trans i = Tr_QUANTIZE_TENSOR \/ i_trans i = Tr_ADD_DEQUANTIZE) /\
+   match i_params i with
+   | Some p => exists y', tensor_at g' (i_tensor i) = Some y' /\ qres p y y'
+   | None => tensor_at g' (i_tensor i) = Some y
+   end).
+Proof.
+  intros Hit Hy H. unfold trans_of in H.
+  assert (Hlt : i_tensor i < ntens g).
+  { unfold tensor_at, nthZ in Hy. destruct (Z.ltb_spec (i_tensor i) 0); [lia|].
+    apply nth_opt_Some_lt in Hy. unfold ntens, lenZ. lia. }
+  destruct (i_trans i) eqn:Etr; try discriminate.
+  - (* ADD_QUANTIZE: only the new tensor is annotated *)
+    left. split; [reflexivity|]. unfold insert_common in H.
+    destruct (add_op_code _ codes) as [cidx cds].
+    destruct (get_tensor g (i_tensor i)) as [t0|]; cbn [bind] in H; [|discriminate].
+    match type of H with bind ?m _ = _ => destruct m as [[b2 g2]|] eqn:Q end; cbn [bind] in H; [|discriminate].
+    destruct (py_min cs); cbn [bind] in H; [|discriminate].
+    match type of H with bind ?m _ = _ => destruct m end; cbn [bind] in H; [|discriminate].
+    destruct (Z.max (producer + 1) _ <? 0); [discriminate|]. inversion H; subst; clear H.
+    change (tensor_at {| sg_tensors := sg_tensors g2; sg_ops := _; sg_inputs := _; sg_outputs := _ |} (i_tensor i))
+      with (tensor_at g2 (i_tensor i)).
+    assert (Hq0 : 0 <= lenZ (sg_tensors g)) by (unfold lenZ; lia).
+    rewrite (quantize_tensor_other _ _ _ _ _ _ Hq0 Q (i_tensor i)) by (unfold ntens in Hlt; lia).
+    unfold tensor_at. cbn [sg_tensors]. rewrite nthZ_app_l by exact Hlt. exact Hy.
+  - (* ADD_DEQUANTIZE: the named tensor itself is quantized *)
+    right. split; [right; reflexivity|]. unfold insert_common in H.
+    destruct (add_op_code _ codes) as [cidx cds].
+    destruct (get_tensor g (i_tensor i)) as [t0|]; cbn [bind] in H; [|discriminate].
+    match type of H with bind ?m _ = _ => destruct m as [[b2 g2]|] eqn:Q end; cbn [bind] in H; [|discriminate].
+    destruct (py_min cs); cbn [bind] in H; [|discriminate].
+    match type of H with bind ?m _ = _ => destruct m end; cbn [bind] in H; [|discriminate].
+    destruct (Z.max (producer + 1) _ <? 0); [discriminate|]. inversion H; subst; clear H.
+    change (tensor_at {| sg_tensors := sg_tensors g2; sg_ops := _; sg_inputs := _; sg_outputs := _ |} (i_tensor i))
+      with (tensor_at g2 (i_tensor i)).
+    match type of Q with quantize_tensor _ ?G _ _ = _ => set (g1 := G) in * end.
+    assert (Hy1 : tensor_at g1 (i_tensor i) = Some y).
+    { unfold tensor_at, g1. cbn [sg_tensors]. rewrite nthZ_app_l by exact Hlt. exact Hy. }
+    destruct (i_params i) as [p|].
+    + exact (quantize_tensor_at _ _ _ _ _ _ _ Hit Hy1 Q).
+    + unfold quantize_tensor in Q. destruct (get_tensor g1 (i_tensor i)) as [t1|]; cbn [bind] in Q; [|discriminate].
+      destruct (negb (t_buf t1 =? 0)); [discriminate|]. inversion Q; subst. exact Hy1.
+  - right. split; [left; reflexivity|].
+    destruct (quantize_tensor bufs g (i_tensor i) (i_params i)) as [[b2 g2]|] eqn:Q; cbn [bind fst snd] in H; [|discriminate].
+    inversion H; subst; clear H.
+    destruct (i_params i) as [p|].
+    + exact (quantize_tensor_at _ _ _ _ _ _ _ Hit Hy Q).
+    + unfold quantize_tensor in Q. destruct (get_tensor g (i_tensor i)) as [t1|]; cbn [bind] in Q; [|discriminate].
+      destruct (negb (t_buf t1 =? 0)); [discriminate|]. inversion Q; subst. exact Hy.
+Qed.
+
+Definition agree (p : qparam) (t : Z) (is : list inst) : Prop :=
+  Forall (fun i => i_tensor i = t ->
+                   (i_trans i = Tr_QUANTIZE_TENSOR \/ i_trans i = Tr_ADD_DEQUANTIZE) ->
+                   i_params i = Some p) is.
+
+(* re-targeted instructions name the NEW tensor *)
+Lemma apply_single_later st k i later st' later' g :
+  0 <= i_tensor i ->
+  nth_opt (m_subgraphs (ps_model st)) k = Some g ->
+  apply_single st (Z.of_nat k) i later = Ok (st', later') ->
+  forall j, In j later' -> In j later \/ i_tensor j = ntens g.
+Proof.
+  intros Hit Hg H. rewrite apply_single_unfold in H.
+  destruct (py_index (ps_orig st) (Z.of_nat k)) as [om|]; cbn [bind] in H; [|discriminate].
+  destruct (py_index (ps_added st) (Z.of_nat k)) as [am|]; cbn [bind] in H; [|discriminate].
+  rewrite (py_index_of_nat _ _ _ Hg) in H. cbn [bind] in H.
+  destruct (resolve om am (i_producer i)) as [producer|]; cbn [bind] in H; [|discriminate].
+  destruct (mapM _ (i_consumers i)) as [cs|]; cbn [bind] in H; [|discriminate].
+  destruct (trans_of i (m_opcodes (ps_model st)) (m_buffers (ps_model st)) g producer cs)
+    as [[[[c' b'] g'] info]|] eqn:T; cbn [bind] in H; [|discriminate].
+  destruct (trans_of_other _ _ _ _ _ _ _ _ _ _ Hit T) as (_ & _ & Hinfo).
+  destruct (to_added info =? 0) eqn:Ez; inversion H; subst st' later'; clear H.
+  - intros j Hj. left. exact Hj.
+  - destruct Hinfo as [Hz|Hto]; [rewrite Hz in Ez; discriminate|].
+    intros j Hj. unfold update_instructions in Hj. apply in_map_iff in Hj. destruct Hj as (j0 & <- & Hj0).
+    destruct (existsb _ (i_consumers j0)); [right; cbn [i_tensor]; exact Hto|left; exact Hj0].
+Qed.
+
+(* the effect of a step on the tensor its instruction names *)
+Lemma apply_single_named st k i later st' later' g y :
+  0 <= i_tensor i ->
+  nth_opt (m_subgraphs (ps_model st)) k = Some g -> tensor_at g (i_tensor i) = Some y ->
+  apply_single st (Z.of_nat k) i later = Ok (st', later') ->
+  exists g', nth_opt (m_subgraphs (ps_model st')) k = Some g' /\ ntens g <= ntens g' /\
+    ((i_trans i = Tr_ADD_QUANTIZE /\ tensor_at g' (i_tensor i) = Some y) \/
+     ((i_trans i = Tr_QUANTIZE_TENSOR \/ i_trans i = Tr_ADD_DEQUANTIZE) /\
+      match i_params i with
+      | Some p => exists y', tensor_at g' (i_tensor i) = Some y' /\ qres p y y'
+      | None => tensor_at g' (i_tensor i) = Some y
+      end)).
+Proof.
+  intros Hit Hg Hy H. rewrite apply_single_unfold in H.
+  destruct (py_index (ps_orig st) (Z.of_nat k)) as [om|]; cbn [bind] in H; [|discriminate].
+  destruct (py_index (ps_added st) (Z.of_nat k)) as [am|]; cbn [bind] in H; [|discriminate].
+  rewrite (py_index_of_nat _ _ _ Hg) in H. cbn [bind] in H.
+  destruct (resolve om am (i_producer i)) as [producer|]; cbn [bind] in H; [|discriminate].
+  destruct (mapM _ (i_consumers i)) as [cs|]; cbn [bind] in H; [|discriminate].
+  destruct (trans_of i (m_opcodes (ps_model st)) (m_buffers (ps_model st)) g producer cs)
+    as [[[[c' b'] g'] info]|] eqn:T; cbn [bind] in H; [|discriminate].
+  destruct (trans_of_other _ _ _ _ _ _ _ _ _ _ Hit T) as (Hn & _ & _).
+  pose proof (trans_of_named _ _ _ _ _ _ _ _ _ _ _ Hit Hy T) as Hnamed.
+  pose proof (nth_opt_Some_lt _ _ _ Hg) as Hlt.
+  exists g'. destruct (to_added info =? 0) eqn:Ez; inversion H; subst st' later'; clear H;
+    cbn [ps_model set_sg m_subgraphs]; rewrite Nat2Z.id;
+    (split; [apply nth_opt_set_nth_same; exact Hlt|]); (split; [exact Hn|exact Hnamed]).
+Qed.
+
+Lemma apply_insts_kept k t p y : forall fuel is st st' g,
+  (forall z, qres p y z -> z = y) ->
+  Forall (fun i => 0 <= i_tensor i) is -> agree p t is ->
+  nth_opt (m_subgraphs (ps_model st)) k = Some g -> tensor_at g t = Some y -> 0 <= t ->
+  apply_insts st (Z.of_nat k) is fuel = Ok st' ->
+  exists g', nth_opt (m_subgraphs (ps_model st')) k = Some g' /\ tensor_at g' t = Some y /\ ntens g <= ntens g'.
+Proof.
+  induction fuel as [|f IH]; intros is st st' g Hst Hnn Hag Hg Hy Ht0 H.
+  - destruct is; cbn in H; [|discriminate]. inversion H; subst. exists g. split; [exact Hg|]. split; [exact Hy|lia].
+  - destruct is as [|i later]; cbn [apply_insts] in H.
+    + inversion H; subst. exists g. split; [exact Hg|]. split; [exact Hy|lia].
+    + inversion Hnn as [|? ? Hi Hnn']; subst. inversion Hag as [|? ? Hai Hag']; subst.
+      assert (Htlt : t < ntens g).
+      { unfold tensor_at, nthZ in Hy. destruct (Z.ltb_spec t 0); [lia|].
+        apply nth_opt_Some_lt in Hy. unfold ntens, lenZ. lia. }
+      destruct (is_insertion (i_trans i)).
+      * destruct (apply_single st (Z.of_nat k) i later) as [[st1 later1]|] eqn:E; cbn [bind fst snd] in H; [|discriminate].
+        pose proof (apply_single_later _ _ _ _ _ _ _ Hi Hg E) as Hl.
+        assert (Hstep : exists g1, nth_opt (m_subgraphs (ps_model st1)) k = Some g1 /\ tensor_at g1 t = Some y /\
+                          ntens g <= ntens g1).
+        { destruct (Z.eq_dec (i_tensor i) t) as [Et|Nt].
+          - subst t. destruct (apply_single_named _ _ _ _ _ _ _ _ Hi Hg Hy E) as (g1 & Hg1 & Hn & Hcase).
+            exists g1. split; [exact Hg1|]. split; [|exact Hn].
+            destruct Hcase as [[_ Hs]|[Htr Hs]]; [exact Hs|].
+            rewrite (Hai eq_refl Htr) in Hs. destruct Hs as (y' & Hy' & Hq). rewrite (Hst _ Hq) in Hy'. exact Hy'.
+          - assert (Hsg : 0 <= Z.of_nat k) by lia.
+            destruct (apply_single_untouched _ _ _ _ _ _ k g t Hsg Hi Hg (conj Ht0 Htlt) (or_intror Nt) E)
+              as (g1 & Hg1 & Et & Hn & _ & _).
+            exists g1. split; [exact Hg1|]. split; [congruence|exact Hn]. }
+        destruct Hstep as (g1 & Hg1 & Hy1 & Hn1).
+        assert (Hnn1 : Forall (fun i => 0 <= i_tensor i) later1).
+        { apply Forall_forall. intros j Hj. destruct (Hl j Hj) as [Hj0|Ej].
+          - rewrite Forall_forall in Hnn'. exact (Hnn' j Hj0).
+          - rewrite Ej. unfold ntens, lenZ. lia. }
+        assert (Hag1 : agree p t later1).
+        { apply Forall_forall. intros j Hj. destruct (Hl j Hj) as [Hj0|Ej].
+          - unfold agree in Hag'. rewrite Forall_forall in Hag'. exact (Hag' j Hj0).
+          - intros C. lia. }
+        destruct (IH later1 st1 st' g1 Hst Hnn1 Hag1 Hg1 Hy1 Ht0 H) as (g2 & A & B & C).
+        exists g2. split; [exact A|]. split; [exact B|lia].
+      * destruct (qtrans_eqb (i_trans i) Tr_EMULATED_SUBCHANNEL); [discriminate|].
+        eapply IH; eassumption.
+Qed.
+
+Lemma foldM_app {A S} (f : S -> A -> res S) : forall l1 l2 s,
+  foldM f (l1 ++ l2) s = (s1 <- foldM f l1 s ;; foldM f l2 s1).
+Proof.
+  induction l1 as [|x l1 IH]; intros l2 s; cbn; [reflexivity|].
+  destruct (f s x); cbn [bind]; [apply IH|reflexivity].
+Qed.
+
+Lemma ids_ok_app a b : ids_ok (a ++ b) -> ids_ok a /\ ids_ok b.
+Proof. unfold ids_ok. apply Forall_app. Qed.
+
+(* whole runs, the positive clause: the tensor whose instruction list starts
+   with QUANTIZE_TENSOR or ADD_DEQUANTIZE (parameters p) comes back quantized
+   with p — same name, shape and buffer, the dtype of p's bit width, annotated
+   with p — provided the rest of its list does not quantize it in place with
+   other parameters and no other list of its subgraph names it *)
+Theorem transform_graph_quantized_in_place m pre ti0 post m' k g t x i0 rest p :
+  nth_opt (m_subgraphs m) k = Some g -> tensor_at g t = Some x -> 0 <= t ->
+  ids_ok (pre ++ ti0 :: post) ->
+  never_names k t pre -> never_names k t post ->
+  ti_sg ti0 = Z.of_nat k -> ti_insts ti0 = i0 :: rest ->
+  i_tensor i0 = t -> (i_trans i0 = Tr_QUANTIZE_TENSOR \/ i_trans i0 = Tr_ADD_DEQUANTIZE) ->
+  i_params i0 = Some p -> agree p t rest ->
+  transform_graph m (pre ++ ti0 :: post) = Ok m' ->
+  exists g' x', nth_opt (m_subgraphs m') k = Some g' /\ tensor_at g' t = Some x' /\ qres p x x'.
+Proof.
+  intros Hg Hx Ht0 Hok Hpre Hpost Hsg Hins Hit Htr Hp Hag H. subst t.
+  assert (Htlt : i_tensor i0 < ntens g).
+  { unfold tensor_at, nthZ in Hx. destruct (Z.ltb_spec (i_tensor i0) 0); [lia|].
+    apply nth_opt_Some_lt in Hx. unfold ntens, lenZ. lia. }
+  unfold transform_graph in H.
+  match type of H with bind ?z _ = _ => destruct z as [st|] eqn:E end; cbn [bind] in H; [|discriminate].
+  inversion H; subst m'; clear H.
+  change (run_all (pre ++ ti0 :: post) (init_pstate m) = Ok st) in E. unfold run_all in E.
+  rewrite foldM_app in E.
+  destruct (foldM _ pre (init_pstate m)) as [s1|] eqn:E1; cbn [bind] in E; [|discriminate].
+  cbn [foldM] in E.
+  destruct (apply_insts s1 (ti_sg ti0) (ti_insts ti0) (length (ti_insts ti0))) as [s2|] eqn:E2; cbn [bind] in E; [|discriminate].
+  destruct (ids_ok_app _ _ Hok) as [Hok1 Hok23]. inversion Hok23 as [|? ? [_ Hnn0] Hok3]; subst.
+  (* prefix *)
+  destruct (run_all_untouched k (i_tensor i0) pre (init_pstate m) s1 g Hok1 Hpre Hg (conj Ht0 Htlt) E1) as (g1 & Hg1 & Ex1 & Hn1).
+  rewrite Hx in Ex1.
+  (* the tensor's own list *)
+  rewrite Hsg, Hins in E2. cbn [length apply_insts] in E2. rewrite Hins in Hnn0.
+  inversion Hnn0 as [|? ? Hi0 Hnnr]; subst.
+  assert (Hins0 : is_insertion (i_trans i0) = true) by (destruct Htr as [-> | ->]; reflexivity).
+  rewrite Hins0 in E2.
+  destruct (apply_single s1 (Z.of_nat k) i0 rest) as [[s1' later1]|] eqn:E0; cbn [bind fst snd] in E2; [|discriminate].
+  destruct (apply_single_named _ _ _ _ _ _ _ _ Hi0 Hg1 Ex1 E0) as (g1' & Hg1' & Hn1' & Hcase).
+  pose proof (apply_single_later _ _ _ _ _ _ _ Hi0 Hg1 E0) as Hl.
+  destruct Hcase as [[C _]|[_ Hs]]; [destruct Htr as [T|T]; rewrite T in C; discriminate|].
+  rewrite Hp in Hs. destruct Hs as (y & Hy & Hq).
+  assert (Hnn1 : Forall (fun i => 0 <= i_tensor i) later1).
+  { apply Forall_forall. intros j Hj. destruct (Hl j Hj) as [Hj0|Ej].
+    - rewrite Forall_forall in Hnnr. exact (Hnnr j Hj0).
+    - rewrite Ej. unfold ntens, lenZ. lia. }
+  assert (Hag1 : agree p (i_tensor i0) later1).
+  { apply Forall_forall. intros j Hj. destruct (Hl j Hj) as [Hj0|Ej].
+    - unfold agree in Hag. rewrite Forall_forall in Hag. exact (Hag j Hj0).
+    - intros C. lia. }
+  destruct (apply_insts_kept k (i_tensor i0) p y _ _ _ _ _ (fun z => qres_stable p x y z Hq) Hnn1 Hag1 Hg1' Hy Ht0 E2)
+    as (g2 & Hg2 & Hy2 & Hn2).
+  (* suffix *)
+  assert (Ht2 : 0 <= i_tensor i0 < ntens g2) by lia.
+  destruct (run_all_untouched k (i_tensor i0) post _ _ g2 Hok3 Hpost Hg2 Ht2 E) as (g3 & Hg3 & Ex3 & _).
+  exists g3, y. split; [exact Hg3|]. split; [congruence|exact Hq].
 Qed.
